@@ -65,6 +65,7 @@ func (e *Exec) sliceElemsOrNil(st *State, v Val, where string) []Val {
 }
 
 func (e *Exec) Input(name, kind string, t types.Type) *Term {
+	name = e.SymPrefix + name
 	if v, ok := e.inputBy[name]; ok {
 		return v
 	}
@@ -158,6 +159,11 @@ func init() {
 		"vObserveInt": func(e *Exec, st *State, fn *ssa.Function, args []Val, where string) Val {
 			name, _ := e.concStr(args[0])
 			e.Observes = append(e.Observes, ObserveRec{Name: name, Guard: st.G, Term: e.term(args[1], "vObserveInt")})
+			return nil
+		},
+		"vObserveStr": func(e *Exec, st *State, fn *ssa.Function, args []Val, where string) Val {
+			name, _ := e.concStr(args[0])
+			e.Observes = append(e.Observes, ObserveRec{Name: name, Guard: st.G, Str: args[1]})
 			return nil
 		},
 		"vLemmaPoint": func(e *Exec, st *State, fn *ssa.Function, args []Val, where string) Val {
@@ -785,12 +791,20 @@ func (e *Exec) mutexOp(st *State, recv Val, lock bool, where string) Val {
 	cell := &Ptr{Obj: p.Obj, Path: appendStep(p.Path, Step{Field: 0})}
 	cur := e.term(e.load(st, cell, where), "mutex state")
 	held := e.S.Eq(cur, e.S.Int(1))
+	e.quietStore = true
+	defer func() { e.quietStore = false }()
 	if lock {
 		e.abortIf(st, held, "deadlock", where)
 		e.store(st, cell, e.S.Int(1), where)
+		if _, ok := st.Mem[ghostHeld]; ok {
+			st.Mem[ghostHeld] = e.S.True
+		}
 	} else {
 		e.abortIf(st, e.S.Not(held), "unlock-unlocked", where)
 		e.store(st, cell, e.S.Int(0), where)
+		if _, ok := st.Mem[ghostHeld]; ok {
+			st.Mem[ghostHeld] = e.S.False
+		}
 	}
 	e.Outs = append(e.Outs, OutEvent{Guard: st.G, Chan: map[bool]string{true: "lock", false: "unlock"}[lock] + "@" + where})
 	return nil
